@@ -73,6 +73,15 @@ func build(race bool) string {
 	wantRace = race
 	dir := filepath.Join(root(), ".build")
 	_ = os.MkdirAll(dir, 0o755)
+	// node registry from the current ast/ast.go
+	{
+		cmd := exec.Command("go", "run", "./cmd/genregistry")
+		cmd.Dir = root()
+		cmd.Env = goEnv()
+		if out, err := cmd.CombinedOutput(); err != nil {
+			fail2("genregistry failed: %v\n%s", err, out)
+		}
+	}
 	out := filepath.Join(dir, "props.test")
 	args := []string{"test", "-c", "-tags", "verif", "-o", out}
 	if race {
@@ -114,11 +123,18 @@ type shardResult struct {
 	out     string
 	err     error
 	timeout bool
+	// extra violation recovered from a pre-committed case file (data race / confirmed hang)
+	extra        *harness.Violation
+	inconclusive string
 }
 
 func runShard(bin, id, tier string, seed int64, i, k int, timeout time.Duration, repDir string) shardResult {
 	repPath := filepath.Join(repDir, fmt.Sprintf("%s-%d.json", id, i))
 	_ = os.Remove(repPath)
+	curPath := filepath.Join(repDir, fmt.Sprintf("%s-%d.cur.json", id, i))
+	hangPath := filepath.Join(repDir, fmt.Sprintf("%s-%d.hang.json", id, i))
+	_ = os.Remove(curPath)
+	_ = os.Remove(hangPath)
 	ctx, cancel := context.WithTimeout(context.Background(), timeout+30*time.Second)
 	defer cancel()
 	cmd := exec.CommandContext(ctx, bin, "-test.run", "^TestProp$", "-test.timeout", timeout.String(), "-test.count", "1")
@@ -126,6 +142,7 @@ func runShard(bin, id, tier string, seed int64, i, k int, timeout time.Duration,
 	cmd.Env = append(os.Environ(),
 		"VERIF_PROP="+id, "VERIF_TIER="+tier, "VERIF_SEED="+strconv.FormatInt(seed, 10),
 		fmt.Sprintf("VERIF_SHARD=%d/%d", i, k), "VERIF_REPORT="+repPath, "VERIF_ROOT="+root(),
+		"VERIF_CURFILE="+curPath, "VERIF_HANGFILE="+hangPath,
 		"GORACE=halt_on_error=1 exitcode=66")
 	var buf bytes.Buffer
 	cmd.Stdout, cmd.Stderr = &buf, &buf
@@ -141,6 +158,46 @@ func runShard(bin, id, tier string, seed int64, i, k int, timeout time.Duration,
 		}
 	}
 	_ = os.Remove(repPath)
+	keep := func(src, sig string) *harness.Violation {
+		cs, err := harness.LoadCase(src)
+		if err != nil {
+			return nil
+		}
+		dir := filepath.Join(root(), "replays")
+		_ = os.MkdirAll(dir, 0o755)
+		dst := filepath.Join(dir, fmt.Sprintf("%s-%016x.json", id, harness.Hash(cs.Input, sig)))
+		b, _ := os.ReadFile(src)
+		_ = os.WriteFile(dst, b, 0o644)
+		return &harness.Violation{Case: cs, Replay: dst}
+	}
+	if strings.Contains(res.out, "WARNING: DATA RACE") {
+		if v := keep(curPath, "race"); v != nil {
+			v.Case.Message += "\n" + tail(res.out, 2500)
+			res.extra = v
+		} else {
+			res.inconclusive = "data race reported but no pre-committed case: " + tail(res.out, 2000)
+		}
+	} else if _, err := os.Stat(hangPath); err == nil {
+		// the watchdog fired: re-run that case alone with a 120 s limit; only a confirmed non-return is a violation
+		ctx2, cancel2 := context.WithTimeout(context.Background(), 120*time.Second)
+		cmd2 := exec.CommandContext(ctx2, bin, "-test.run", "^TestProp$", "-test.timeout", "10m")
+		cmd2.Dir = filepath.Join(root(), "props")
+		cmd2.Env = append(os.Environ(), "VERIF_PROP="+id, "VERIF_REPLAY="+hangPath, "VERIF_ROOT="+root())
+		out2, _ := cmd2.CombinedOutput()
+		timedOut := ctx2.Err() != nil
+		cancel2()
+		if timedOut && id == "C03" {
+			if v := keep(hangPath, "hang"); v != nil {
+				v.Case.Sigs = []string{"C03 non-termination"}
+				v.Case.Message = "the call did not return within 120 s when re-run alone"
+				res.extra = v
+			}
+		} else {
+			res.inconclusive = fmt.Sprintf("watchdog fired in shard %d (isolated re-run: timedOut=%v): %s", i, timedOut, tail(string(out2), 500))
+		}
+	}
+	_ = os.Remove(curPath)
+	_ = os.Remove(hangPath)
 	return res
 }
 
@@ -226,8 +283,17 @@ func main() {
 		extra      = map[string]any{}
 	)
 	for _, r := range results {
+		if r.extra != nil {
+			violations = append(violations, *r.extra)
+		}
+		if r.inconclusive != "" {
+			infra = append(infra, r.inconclusive)
+		}
 		if os.Getenv("VERIF_COLLECT") != "" {
 			fmt.Printf("---- shard %d ----\n%s", r.idx, r.out)
+		}
+		if r.rep == nil && r.extra != nil {
+			continue
 		}
 		if r.rep == nil {
 			infra = append(infra, fmt.Sprintf("shard %d wrote no report (err=%v timeout=%v)\n%s", r.idx, r.err, r.timeout, tail(r.out, 3000)))
@@ -409,4 +475,3 @@ func mergeExtra(dst map[string]any, k string, v any) {
 		}
 	}
 }
-
